@@ -1454,7 +1454,7 @@ func c02RunSpec(run *ev.Run, sp *c02Spec) {
 
 func runC02(tier string, args []string) {
 	run := ev.New("C02", tier, "exploration")
-	run.Rule("seeded meshes of real netceptor nodes (random unit-cost graphs of 2-8 nodes, 7-node chains with hop limit 6 so that the limit itself is reached, a 31-node chain at the default limit 30; node IDs from a dictionary: 1 byte, 300 bytes, UTF-8, pairs differing only in case, punctuation/control characters, near-aliases of localhost, IDs equal to service names; 2-9 datagram listeners per node from families of prefix-related, 8-byte, 0x01/0xFF/space-containing, case-variant and node-ID-equal names). 1-16 concurrent senders WriteTo seeded payloads (0..MTU=16384 bytes; random/zero/0xFF/text/nested-frame fills; a 16-byte id at a seeded offset; 4-15 byte payloads unique by content; 0-3 byte payloads on a serial lane), a quarter of them overwriting their buffer after WriteTo returned, half of the node-local ones addressed to the alias localhost, ~12% addressed to near-miss names nobody listens on. One reader per listener logs (listener, source address, sha256, id); the offline join demands: delivered only at the addressed listener, byte-identical, true source, at most once, and - mesh unchanged, loss-free - delivered at all: a datagram is lost when a fence written later on the same (socket, listener) pair, or from the same node to the same destination node, was delivered (every stage in between is FIFO), or, failing that, when nothing arrived for 10 s while this process was demonstrably not starved. The same accounting runs over 3-node chains linked by real TCP (through a frame-aware chunking proxy: cuts inside the 2-byte length, after it, inside the header, at the header/payload boundary, mid-payload; coalesced frames), websocket (blind chunking proxy), UDP and ExternalBackend over MessageConnFromNetConn (chunked, buffered pipe pair); pkg/framer is driven differentially against a reference deframer. distinct_nontrivial = distinct (length class, listener-name class, hops, transport, chunk mode) tuples of datagrams delivered and checked")
+	run.Rule("seeded meshes of real netceptor nodes (random unit-cost graphs of 2-8 nodes, 7-node chains with hop limit 6 so that the limit itself is reached, a 31-node chain at the default limit 30; node IDs from a dictionary: 1 byte, 300 bytes, UTF-8, pairs differing only in case, punctuation/control characters, near-aliases of localhost, IDs equal to service names; 2-9 datagram listeners per node from families of prefix-related, 8-byte, 0x01/0xFF/space-containing, case-variant and node-ID-equal names). 1-16 concurrent senders WriteTo seeded payloads (0..MTU=16384 bytes; random/zero/0xFF/text/nested-frame fills; a 16-byte id at a seeded offset; 4-15 byte payloads unique by content; 0-3 byte payloads on a serial lane), a quarter of them overwriting their buffer after WriteTo returned, half of the node-local ones addressed to the alias localhost, ~12% addressed to near-miss names nobody listens on. One reader per listener logs (listener, source address, sha256, id); the offline join demands: delivered only at the addressed listener, byte-identical, true source, at most once, and - mesh unchanged, loss-free - delivered at all: a datagram is lost when a fence written later on the same (socket, listener) pair, or from the same node to the same destination node, was delivered (every stage in between is FIFO), or, failing that, when nothing arrived for 10 s while this process was demonstrably not starved. The same accounting runs over 3-node chains linked by real TCP (through a frame-aware chunking proxy: cuts inside the 2-byte length, after it, inside the header, at the header/payload boundary, mid-payload; coalesced frames), websocket (blind chunking proxy), UDP and ExternalBackend over MessageConnFromNetConn (chunked, buffered pipe pair); pkg/framer is driven differentially against a reference deframer. Backlog trials: 4 sockets burst 120-600 datagrams each at one listener whose reader starts a second later; all must arrive once, unaltered. distinct_nontrivial = distinct (length class, listener-name class, hops, transport, chunk mode) tuples of datagrams delivered and checked")
 	run.Assume("\"payload up to the advertised MTU\" = 0..Netceptor.MTU() (16384) payload bytes; no layer enforces the MTU, the 36-byte header is additional (16420 bytes < the stream backends' uint16 frame limit 65535 and < the UDP backend's 65507)")
 	run.Assume("node IDs are valid UTF-8 text (they travel in JSON) and never a case variant of the alias localhost; service names are arbitrary 1-8 non-zero bytes other than ping/unreach")
 	run.Assume("UDP over loopback is only judged for loss when the kernel's UDP drop counters did not move; senders there keep one datagram in flight each")
@@ -1530,6 +1530,11 @@ func runC02(tier string, args []string) {
 		}(i, j)
 	}
 	wg.Wait()
+	if len(args) == 0 {
+		for i := 0; i < run.Pick(4, 16); i++ {
+			runC02Backlog(run, i)
+		}
+	}
 	collectRaces(run, work)
 	floor := run.Pick(150, 600)
 	if only != "" {
